@@ -1253,7 +1253,7 @@ def pattern_shr_i32(context, tree, c0, c1):
     "reg",
     "SHRI32(reg, CONSTI32)",
     size=2,
-    condition=lambda t: t.children[1].value < 32,
+    condition=lambda t: 0 <= t.children[1].value < 32,
 )
 def pattern_shr_i32_reg_const(context, tree, c0):
     d = context.new_reg(RiscvRegister)
@@ -1278,7 +1278,7 @@ def pattern_shl_i32(context, tree, c0, c1):
     "reg",
     "SHLI32(reg, CONSTI32)",
     size=2,
-    condition=lambda t: t.children[1].value < 32,
+    condition=lambda t: 0 <= t.children[1].value < 32,
 )
 def pattern_shl_i32_reg_const(context, tree, c0):
     d = context.new_reg(RiscvRegister)
